@@ -156,7 +156,7 @@ Proof. unfold eqc, code, ch. intros H. apply N.eqb_eq in H. rewrite <- H. symmet
 Lemma parse_operator_inv i op r : parse_operator i = Ok (op, r) -> In op ops.
 Proof.
   unfold parse_operator. destruct (eqc (peek (eat_ws i)) 61).
-  - intros E. inversion E; subst. now left.
+  - destruct (_ || _); [discriminate|]. intros E. inversion E; subst. now left.
   - destruct (_ || _); [discriminate|].
     set (l := peek (eat_ws i)). set (m := peek (adv (eat_ws i))).
     destruct (eqc l 62 && eqc m 61) eqn:A.
